@@ -1073,6 +1073,23 @@ func registerRegexp(in map[string]intrinsic) {
 		if ok1 && ok2 && r != nil {
 			return r.ReplaceAllString(s, rep), true
 		}
+		if ok2 && r != nil {
+			if sb, ok := a[1].(*SymStr); ok {
+				if repStr, ok := p.classSplit(r, sb.b); ok {
+					// match positions from the representative, expansion of the
+					// template ($1, ${1}, $$) over the real (symbolic) bytes
+					var out value = ""
+					last := 0
+					for _, m := range r.FindAllStringSubmatchIndex(repStr, -1) {
+						out = strConcat(out, strSlice(a[1], last, m[0]))
+						out = strConcat(out, expandTemplate(rep, a[1], m))
+						last = m[1]
+					}
+					out = strConcat(out, strSlice(a[1], last, len(sb.b)))
+					return out, true
+				}
+			}
+		}
 		p.unsupported("(*regexp.Regexp).ReplaceAllString on symbolic data")
 		return nil, true
 	}
@@ -1372,4 +1389,46 @@ func xlanguageParse(s string) (string, error) {
 		}
 	}
 	return s, nil
+}
+
+// expandTemplate: regexp.Expand for numeric group references only.
+func expandTemplate(tmpl string, src value, m []int) value {
+	var out value = ""
+	for i := 0; i < len(tmpl); i++ {
+		c := tmpl[i]
+		if c != '$' || i+1 >= len(tmpl) {
+			out = strConcat(out, string(c))
+			continue
+		}
+		j := i + 1
+		if tmpl[j] == '$' {
+			out = strConcat(out, "$")
+			i = j
+			continue
+		}
+		brace := tmpl[j] == '{'
+		if brace {
+			j++
+		}
+		k := j
+		n := 0
+		for k < len(tmpl) && tmpl[k] >= '0' && tmpl[k] <= '9' {
+			n = n*10 + int(tmpl[k]-'0')
+			k++
+		}
+		if k == j {
+			out = strConcat(out, "$")
+			continue
+		}
+		if brace {
+			if k < len(tmpl) && tmpl[k] == '}' {
+				k++
+			}
+		}
+		if 2*n+1 < len(m) && m[2*n] >= 0 {
+			out = strConcat(out, strSlice(src, m[2*n], m[2*n+1]))
+		}
+		i = k - 1
+	}
+	return out
 }
